@@ -20,9 +20,14 @@ def put(buf, pos, data):
     buf[pos:pos + len(data)] = data
 
 
-def rand_elf(rng, clean=None, file_safe=False, want=None):
+DISK_LIMIT = 2 ** 48          # nominal: every generated huge offset/size is >= 2**50, everything else < 2**32
+
+
+def rand_elf(rng, clean=None, file_safe=False, want=None, disk=False):
     """Returns (bytes, expect) where expect = (cap, enc, machine, flags, interp or None) when the image was laid out cleanly
-    (no truncation/overlap/damage), else None.  file_safe: keep every offset/size small (for images read through a real file)."""
+    (no truncation/overlap/damage), else None.  file_safe: keep every offset/size small (for images read through a real file).
+    disk: the image will be read through a real file although it is not file_safe: huge values are taken from {2**50, 2**62, 2**63-1, 2**63, max}
+    only (far from the machine-dependent limits of lseek and of a read buffer), never 2**40."""
     if clean is None: clean = rng.random() < 0.5
     cap, enc = rng.choice([1, 2]), rng.choice([1, 2])
     if want in ("armhf", "i686"):
@@ -55,8 +60,8 @@ def rand_elf(rng, clean=None, file_safe=False, want=None):
             if r < 0.12: size = rng.choice([0, max(len(s) - 3, 0), len(s) + 5, 4096])
             elif r < 0.2: off = rng.choice([0, 3, blob_at + 10 ** 6, 2 ** 31])
             elif r < (0.45 if t == 3 else 0.3) and not file_safe:
-                if rng.random() < 0.5: off = rng.choice([2 ** 63 - 1, 2 ** 63, wide, 2 ** 62]) & wide
-                else: size = rng.choice([2 ** 63 - 1, 2 ** 63, wide, 2 ** 40]) & wide
+                if rng.random() < 0.5: off = rng.choice([2 ** 63 - 1, 2 ** 63, wide, 2 ** 62] + ([2 ** 50] if disk else [])) & wide
+                else: size = rng.choice([2 ** 63 - 1, 2 ** 63, wide, 2 ** 50 if disk else 2 ** 40] + ([2 ** 62] if disk else [])) & wide
         fields = [t, rng.randrange(8)] + [rng.randrange(2 ** 16) for _ in range(6)]
         io, isz = (1, 4) if cap == 1 else (2, 5)
         if cap == 2: fields[1] = rng.randrange(8)
@@ -69,7 +74,7 @@ def rand_elf(rng, clean=None, file_safe=False, want=None):
     e_phoff, e_phnum = phoff, nph
     if not clean:
         r = rng.random()
-        if r < 0.08 and not file_safe: e_phoff = rng.choice([2 ** 63 - 1, 2 ** 63, 2 ** 64 - 1, 2 ** 63 - psize, 2 ** 62]) & wide
+        if r < 0.08 and not file_safe: e_phoff = rng.choice([2 ** 63 - 1, 2 ** 63, 2 ** 64 - 1, 2 ** 63 - psize, 2 ** 62] + ([2 ** 50] if disk else [])) & wide
         elif r < 0.14: e_phoff = rng.choice([0, 5, 10 ** 6, 2 ** 31 - 1] if not file_safe else [10 ** 6, 2 ** 31 - 1])
         elif r < 0.2: e_phnum = rng.choice([nph + 1, nph + 3, max(nph - 1, 0), 40])
         elif r < 0.21 and not file_safe and entsize <= 64: e_phnum = 65535      # long scans over a short file
